@@ -458,6 +458,7 @@ def _do_rewrite(source: str, rewrite: _Rewrite, *, fix_function_name: str = "") 
     lines = new_code.splitlines(keepends=True)
     indent = getattr(old, "col_offset", getattr(new, "col_offset", 0))
     indents = {**{i: indent for i in range(len(lines))}, 0: len(code) - len(code.lstrip(" "))}
+    lines_ending_in_string = set()
 
     try:
         new_code_ast = core.parse(new_code)
@@ -472,9 +473,13 @@ def _do_rewrite(source: str, rewrite: _Rewrite, *, fix_function_name: str = "") 
             ):
                 for lineno in range(node.lineno, node.end_lineno):
                     indents[lineno] = 0
+                    # The end of the line before is inside the string
+                    lines_ending_in_string.add(lineno - 1)
 
     new_code = "".join(
-        f"{' ' * indents[i]}{code}".rstrip() + ("\n" if code.endswith("\n") else "")
+        f"{' ' * indents[i]}{code}"
+        if i in lines_ending_in_string
+        else f"{' ' * indents[i]}{code}".rstrip() + ("\n" if code.endswith("\n") else "")
         for i, code in enumerate(lines)
     )
 
